@@ -20,6 +20,8 @@ def bounds(tier):
 def cases(tier, seed):
     for cid, specs in C.grouped(tier, seed, PER_CASE, prefix="C01|"):
         yield cid, {"specs": specs, "tier": tier}
+    for i, seq in enumerate(C.mixing_sequences()):
+        yield f"C01|mixing|{i:02d}|{seq[0][0]}", {"specs": seq, "tier": tier}
 
 
 def component_of(p):
